@@ -283,6 +283,8 @@ def binop(I, fr, op, l, r, node):
                 mono = l.mono
             if lscalar and is_nonneg(l.sign) and r.mono:
                 mono = r.mono
+            if l.mono and r.mono and is_nonneg(l.sign) and is_nonneg(r.sign) and not (lscalar or rscalar):
+                mono = l.mono & r.mono
             f0 = l.f0 or r.f0
             if l.sym is not None and r.sym is not None:
                 if r.sym.is_const():
@@ -714,9 +716,12 @@ def subscript(I, fr, base, idx, node, quiet=False):
         if k in (0, -1):
             ext = ("lo" if k == 0 else "hi", tuple(sorted(b.origin)))
             tags = tags | frozenset(["sel:first" if k == 0 else "sel:last"])
+    note = None
+    if len(comps) == 1 and int_const(comps[0]) == -1 and 0 in b.mono and kind == K_ARRAY:
+        note = "lastof"
     return AV(kind=kind, dtype=b.dtype, origin=origin, shape=shape, alg=alg, sign=b.sign,
               mono=frozenset(mono_map.values()), tags=tags, indef=indef, f0=f0,
-              sym=None, const=_NOCONST, ext=ext)
+              sym=None, const=_NOCONST, ext=ext, note=note)
 
 
 def join_all(items):
@@ -1922,6 +1927,8 @@ def _insert(C):
             add = vals.shape[0]
         if add is not None:
             shape = tuple((d + add) if i == k else d for i, d in enumerate(v.shape))
+    if shape is None and k is not None and v.shape is not None:
+        shape = tuple(None if i == k else d for i, d in enumerate(v.shape))  # rank kept, extended dimension unknown
     alg = {}
     for at in v.atoms() | vals.atoms() | objn.atoms():
         alg[at] = alg_weaken(alg_lub(v.a(at), vals.a(at)), objn.a(at))
@@ -1929,7 +1936,11 @@ def _insert(C):
     at_start = const_num(objn) == 0
     if k is not None and k in v.mono and at_start and is_nonneg(v.sign) and vals.sign == S_ZERO:
         mono = frozenset([k])
-    if k is not None and k in v.mono and "lastof" in (vals.note or "") :
+    if k is not None and k in v.mono and ((vals.note == "lastof" and vals.origin == v.origin) or
+                                          (vals.ext is not None and vals.ext[0] == "hi" and vals.ext[1] == tuple(sorted(v.origin)))):
+        mono = frozenset([k])  # inserting a copy of the last element keeps the order wherever it goes after it... or before it
+    if k is not None and k in v.mono and objn.sym is not None and v.shape[k] is not None and objn.sym == v.shape[k] and \
+            vals.sym is not None and "index-bound" in (vals.note or ""):
         mono = frozenset([k])
     f0 = (at_start and vals.sign == S_ZERO and v.shape is not None and len(v.shape) == 1) or \
          (v.f0 and not at_start and const_num(objn) is not None and const_num(objn) > 0)
